@@ -286,3 +286,23 @@ Definition dv_unscale (dv_adder dv_scaler : Q) (xnew : list Q) : list Q :=
 
 Definition compute_con_viol (cs : list cspec) (ds : bool) (dv_adder dv_scaler : Q) (xnew : list Q) : val :=
   vres (con_viol_vector cs ds (dv_unscale dv_adder dv_scaler xnew)).
+
+(* ------------------------------------------------------------------ statements about whole constraints *)
+
+(* the metadata of a constraint of n elements is well formed: bounds / equality / scaler broadcast to
+   n, lower <= upper per element, no zero scaler *)
+Definition con_wf (k : con) (n : nat) : Prop :=
+  exists lo hi s,
+    bcast n (c_lower k) = Some lo /\ bcast n (c_upper k) = Some hi /\ bcast n (c_scaler k) = Some s /\
+    (forall j, (j < n)%nat -> nth j lo 0 <= nth j hi 0) /\
+    (forall j, (j < n)%nat -> ~ nth j s 0 == 0) /\
+    match c_equals k with Some e => exists el, bcast n e = Some el | None => True end.
+
+(* every element of the constraint satisfies its equality value or its bounds *)
+Definition con_sat (k : con) (cv : list Q) : Prop :=
+  match c_equals k with
+  | Some e => forall el, bcast (length cv) e = Some el ->
+                forall j, (j < length cv)%nat -> nth j cv 0 == nth j el 0
+  | None => forall lo hi, bcast (length cv) (c_lower k) = Some lo -> bcast (length cv) (c_upper k) = Some hi ->
+                forall j, (j < length cv)%nat -> satisfied (nth j lo 0) (nth j hi 0) (nth j cv 0)
+  end.
